@@ -39,11 +39,16 @@ Definition extract_domain (email : str) : option str := option_map snd (extract_
 
 Definition parse_rcpt_to (args : str) : option str :=
   let args := trim_space args in
-  if negb (has_prefix (to_upper args) (S_ "TO:")) then None
+  if (length args <? 3)%nat || negb (equal_fold (firstn 3 args) (S_ "TO:")) then None
   else
-    let args := trim_prefix args (S_ "TO:") in
-    let args := trim_prefix args (S_ "to:") in
-    let args := trim_space args in
+    let args := trim_space (skipn 3 args) in
+    (* the address ends at the closing bracket; ESMTP parameters may follow it *)
+    let args := if has_prefix args (S_ "<")
+                then match index args (S_ ">") with
+                     | Some e => firstn (S e) args
+                     | None => args
+                     end
+                else args in
     let args := trim_prefix args (S_ "<") in
     let args := trim_suffix args (S_ ">") in
     Some args.
@@ -102,13 +107,6 @@ Definition user_is (n dom : str) (u : user) : bool := str_eqb (u_name u) n && st
 Definition check_user_exists (d : db) (username : str) : bool :=
   existsb (fun u => str_eqb (u_name u) username) (users d).
 
-(** Storage.CheckRecipientExists: [None] = error return *)
-Definition check_recipient_exists (d : db) (recipient : str) : option bool :=
-  match extract_local_part recipient with
-  | None => None
-  | Some username => Some (check_user_exists d username)
-  end.
-
 (** db.GetUserByUsername: ... WHERE username = ? AND domain_id = ? AND enabled = true *)
 Definition get_user_by_username (d : db) (n dom : str) : bool :=
   existsb (fun u => user_is n dom u && u_enabled u) (users d).
@@ -119,6 +117,24 @@ Definition user_row_exists (d : db) (n dom : str) : bool := existsb (user_is n d
 (** db.GetRoleMailboxByEmail: ... WHERE email = ? AND enabled = true *)
 Definition get_role_mailbox_by_email (d : db) (email : str) : bool :=
   existsb (fun r => str_eqb (r_email r) email && r_enabled r) (roles d).
+
+(** db.RoleMailboxExists: the same WHERE clause *)
+Definition role_mailbox_exists (d : db) (email : str) : bool := get_role_mailbox_by_email d email.
+
+(** Storage.CheckRecipientExists: [None] = error return. An enabled role
+    mailbox address, or an enabled user of that name in that domain (one
+    query joining users and domains; domains are all enabled in the view). *)
+Definition check_recipient_exists (d : db) (recipient : str) : option bool :=
+  match extract_local_part recipient with
+  | None => None
+  | Some username =>
+      match extract_domain recipient with
+      | None => None
+      | Some domain =>
+          if role_mailbox_exists d recipient then Some true
+          else Some (get_user_by_username d username domain)
+      end
+  end.
 
 Definition add_user (d : db) (n dom : str) : db :=
   mkDb (users d ++ [mkUser n dom true]) (roles d) (msgs d).
